@@ -1322,7 +1322,7 @@ func TestVerifC14(t *testing.T) {
 	old := debug.SetPanicOnFault(true)
 	defer debug.SetPanicOnFault(old)
 
-	run.Cases(run.N(2500, 640000), func(c *vlib.Case) {
+	run.Cases(run.N(10000, 640000), func(c *vlib.Case) {
 		env.runImage(c, run, c14Gen(c.R, c.Idx))
 	})
 
